@@ -189,6 +189,9 @@ DATASET_LEVEL = [
     ("dpr", 'define datapoint ruleset dpr (variable Me_1, Id_2) is r1: when Id_2 = "a" then 1 / Me_1 > 0 errorcode "X" errorlevel 1; r2: sqrt(Me_1) >= 0 end datapoint ruleset; R <- check_datapoint(DS_N, dpr {out});'),
     ("hr check", 'define hierarchical ruleset hr (variable rule Id_2) is r1: a = b + c errorcode "h" errorlevel 2; r2: a >= b end hierarchical ruleset; R <- check_hierarchy(DS_N, hr rule Id_2 {hmode} {out});'),
     ("hierarchy", "define hierarchical ruleset hr (variable rule Id_2) is a = b + c; d = a - b end hierarchical ruleset; R <- hierarchy(DS_N, hr rule Id_2 {hmode} {hout});"),
+    ("multi scalar in clauses", "sc := {scalar_n}; A := DS_N[calc Me_x := Me_1 + sc]; B := DS_N[filter Me_1 > sc]; R <- A + B[calc Me_x := Me_1 / sc];"),
+    ("multi chain", "A := DS_N * DS_N2; B := A / DS_N; C <- B[calc Me_x := sqrt(Me_1)]; R <- inner_join(C as c, DS_X as i calc Me_y := Me_1 / Me_9);"),
+    ("multi reuse", "T := sum(DS_N group by Id_2); U := DS_N[aggr Me_x := max(Me_1) group by Id_2]; R <- T / T; S <- U[calc Me_z := ln(Me_x)];"),
     ("scalar", "R <- {scalar};"), ("scalar in ds", "R <- DS_N + {scalar_n};"),
     ("udo", "define operator f (x component, y component) returns component is x / y end operator; R <- DS_N[calc Me_x := f(Me_1, Me_1 - Me_1)];"), ("udo ds", "define operator g (x dataset, y number) returns dataset is sqrt(x) / y end operator; R <- g(DS_N, 0);"),
 ]
